@@ -1097,6 +1097,23 @@ Proof.
            destruct Hx as [Hx|Hx]; [left; apply (L1 d bl x Hbl Hx)|right; apply (R1 d br x Hbr' Hx)].
       * intros x y H. apply in_or_app. destruct (def_of_app_cases (c_defs cr) (c_defs cl) x) as [E|E]; rewrite E in H;
           [right; apply (R2 x y H)|left; apply (L2 x y H)].
+    + destruct (compile l) as [cl|] eqn:El; [|discriminate C]. destruct (compile r) as [cr|] eqn:Er; [|discriminate C].
+      destruct (q_where (c_q cl)); [|discriminate C]. destruct (q_where (c_q cr)); [|discriminate C].
+      inversion C; subst; clear C. destruct (IHl cl eq_refl) as [L1 L2]. destruct (IHr cr eq_refl) as [R1 R2].
+      constructor; cbn [base_rows c_from c_cols c_defs].
+      * intros d b x Hb Hx. apply in_app_or in Hb. destruct Hb as [Hb|Hb].
+        -- apply in_flat_map in Hb. destruct Hb as [bl [Hbl Hb]].
+           match type of Hb with context [filter ?p ?L] => destruct (filter p L) as [|m ms] eqn:Ef end.
+           ++ destruct Hb as [<-|[]]. apply in_or_app. left. apply (L1 d bl x Hbl Hx).
+           ++ change (In b (map (fun br : list (uid * value) => (bl ++ br)%list) (m :: ms))) in Hb.
+              apply in_map_iff in Hb. destruct Hb as [br [<- Hbr]].
+              assert (Hbr' : In br (base_rows d cr)).
+              { assert (Hin : In br (m :: ms)) by exact Hbr. rewrite <- Ef in Hin. apply filter_In in Hin. tauto. }
+              rewrite map_app in Hx. apply in_or_app. apply in_app_or in Hx.
+              destruct Hx as [Hx|Hx]; [left; apply (L1 d bl x Hbl Hx)|right; apply (R1 d br x Hbr' Hx)].
+        -- apply filter_In in Hb. destruct Hb as [Hb _]. apply in_or_app. right. apply (R1 d b x Hb Hx).
+      * intros x y H. apply in_or_app. destruct (def_of_app_cases (c_defs cr) (c_defs cl) x) as [E|E]; rewrite E in H;
+          [right; apply (R2 x y H)|left; apply (L2 x y H)].
   - destruct (compile l) as [cl|] eqn:El; [|discriminate C]. destruct (compile r) as [cr|] eqn:Er; [|discriminate C].
     destruct (union_right_select cl cr) as [rsel|]; [|discriminate C]. inversion C; subst; clear C.
     constructor; cbn [base_rows c_from c_cols c_defs].
@@ -1453,6 +1470,188 @@ Proof.
   - cbn [group do_join]. symmetry. exact PL.
 Qed.
 
+Definition full_join_compiled (cl cr : compiled) (on : expr) : compiled :=
+  let ds := c_defs cr ++ c_defs cl in
+  let q := c_q cl in
+  {| c_from := FRows (fun d =>
+                  flat_map (fun bl =>
+                              match filter (fun br => on_holds ds on (bl ++ br)%list) (base_rows d cr) with
+                              | [] => [bl]
+                              | ms => map (fun br => (bl ++ br)%list) ms
+                              end)
+                           (base_rows d cl)
+                  ++ filter (fun br => negb (existsb (fun bl => on_holds ds on (bl ++ br)%list) (base_rows d cl)))
+                            (base_rows d cr));
+     c_cols := c_cols cl ++ c_cols cr;
+     c_q := {| q_select := q_select q ++ q_select (c_q cr); q_part := q_part q; q_group := q_group q;
+               q_where := []; q_having := q_having q;
+               q_order := q_order q; q_limit := q_limit q; q_offset := q_offset q; q_summ := q_summ q |};
+     c_labels := c_labels cr ++ c_labels cl;
+     c_defs := ds;
+     c_scope := c_scope cl ++ c_scope cr |}.
+
+Lemma full_join_case d sl sr cl cr on (UL UR : list uid) :
+  Inv d sl cl -> Aux cl -> Inv d sr cr -> Aux cr -> Base cl -> Base cr ->
+  keys_in UL (rows sl) -> keys_in UR (rows sr) ->
+  q_summ (c_q cl) = false -> no_limit (c_q cl) = true -> is_nil (q_order (c_q cl)) = true -> q_part (c_q cl) = [] -> ds_elem_b (c_defs cl) = true ->
+  q_summ (c_q cr) = false -> no_limit (c_q cr) = true -> is_nil (q_order (c_q cr)) = true -> ds_elem_b (c_defs cr) = true ->
+  elem on = true -> scoped (c_scope cl ++ c_scope cr) on = true ->
+  (forall x, In x (c_scope cl) -> ~ In x UR) -> (forall x, In x (c_scope cr) -> ~ In x UL) ->
+  (forall x, In x (c_cols cl) -> ~ In x (c_cols cr)) ->
+  (forall x, In x (map fst (c_defs cl)) -> ~ In x (map fst (c_defs cr))) ->
+  (forall x, In x (q_select (c_q cl)) -> ~ In x (map fst (c_labels cr))) ->
+  (forall x, In x (map fst (c_defs cr)) -> exists k, def_of (c_defs cr) x = ECol k) ->
+  (forall x, In x (map fst (c_defs cl)) -> exists k, def_of (c_defs cl) x = ECol k) ->
+  q_where (c_q cl) = [] -> q_where (c_q cr) = [] ->
+  Inv d (do_join sl sr on JFull) (full_join_compiled cl cr on) /\ Aux (full_join_compiled cl cr on).
+Proof.
+  intros Il Al Ir Ar Bl Br KL KR SuL NLl NOl PL DEl SuR NLr NOr DEr Eon Son DsR DsL Dc Dd Dl PlainR PlainL WL WR.
+  pose proof (ds_elem_b_spec _ DEl) as Dl'. pose proof (ds_elem_b_spec _ DEr) as Dr'.
+  destruct (a_nosumm cl Al SuL) as [HhL HgL]. destruct (a_nosumm cr Ar SuR) as [HhR HgR].
+  set (dsl := c_defs cl) in *. set (dsr := c_defs cr) in *. set (ds := dsr ++ dsl).
+  set (Bsl := base_rows d cl). set (Bsr := base_rows d cr).
+  set (wl := fun b : row => all_true dsl (q_where (c_q cl)) (mk1 b)).
+  set (wr := fun b : row => all_true dsr (q_where (c_q cr)) (mk1 b)).
+  (* reference rows of the operands, related to the FROM rows that pass WHERE *)
+  destruct Il as [Rl Sl Gl]. destruct Ir as [Rr Sr Gr].
+  rewrite (final_units_rows d cl Al SuL NLl NOl) in Rl. cbv zeta in Rl.
+  apply (units_plain_out (c_scope cl) dsl _ _ Dl') in Rl. fold Bsl wl in Rl.
+  rewrite (final_units_rows d cr Ar SuR NLr NOr) in Rr. cbv zeta in Rr.
+  apply (units_plain_out (c_scope cr) dsr _ _ Dr') in Rr. fold Bsr wr in Rr.
+  (* definitions of the joined query *)
+  assert (DefL : forall x, In x (map fst dsl) -> def_of ds x = def_of dsl x).
+  { intros x Hx. unfold ds. apply def_of_app_other. intros C. apply (Dd x Hx C). }
+  assert (DefR : forall x, In x (map fst dsr) -> def_of ds x = def_of dsr x).
+  { intros x Hx. unfold ds, def_of. destruct (assoc_u_in_dom _ _ Hx) as [e He]. rewrite (assoc_u_app_found _ _ _ _ He), He. reflexivity. }
+  assert (ElemDs : ds_elem ds).
+  { intros x. destruct (def_of_app_cases dsr dsl x) as [E|E]; unfold ds; rewrite E; [apply Dr'|apply Dl']. }
+  (* a FROM row of one operand is read unchanged inside a joined FROM row *)
+  assert (GetL : forall bl br k, In bl Bsl -> In br Bsr -> In k (c_cols cl) -> get (bl ++ br) k = get bl k).
+  { intros bl br k Hbl Hbr Hk. apply get_app_nokey_r. intros C. apply (Dc k Hk). apply (b_keys cr Br d br k Hbr C). }
+  assert (GetR : forall bl br k, In bl Bsl -> In br Bsr -> In k (c_cols cr) -> get (bl ++ br) k = get br k).
+  { intros bl br k Hbl Hbr Hk. apply get_app_nokey_l. intros C. apply (Dc k (b_keys cl Bl d bl k Hbl C) Hk). }
+  assert (EvL : forall bl br x, In bl Bsl -> In br Bsr -> In x (map fst dsl) ->
+                 eval [] (0%nat, (bl ++ br)%list) (def_of ds x) = eval [] (0%nat, bl) (def_of dsl x)).
+  { intros bl br x Hbl Hbr Hx. rewrite (DefL x Hx). apply eval_on_cols. intros k Hk.
+    apply (GetL bl br k Hbl Hbr). apply (b_defs cl Bl x k Hk). }
+  assert (EvR : forall bl br x, In bl Bsl -> In br Bsr -> In x (map fst dsr) ->
+                 eval [] (0%nat, (bl ++ br)%list) (def_of ds x) = eval [] (0%nat, br) (def_of dsr x)).
+  { intros bl br x Hbl Hbr Hx. rewrite (DefR x Hx). apply eval_on_cols. intros k Hk.
+    apply (GetR bl br k Hbl Hbr). apply (b_defs cr Br x k Hk). }
+  (* WHERE of the joined query = WHERE of the left row and WHERE of the right row *)
+  assert (WhL : forall bl br, In bl Bsl -> In br Bsr -> all_true ds (q_where (c_q cl)) (mk1 (bl ++ br)%list) = wl bl).
+  { intros bl br Hbl Hbr. unfold wl, all_true. apply forallb_ext_in'. intros p Hp. f_equal. unfold ev, mk1. cbn [fst snd].
+    rewrite (subst_ext_on p dsl ds) by (intros x Hx; apply DefL; apply (a_where_dom cl Al p Hp x Hx)).
+    apply eval_on_cols. intros k Hk. apply (GetL bl br k Hbl Hbr). apply (cols_subst _ dsl (b_defs cl Bl) p k Hk). }
+  assert (WhR : forall bl br, In bl Bsl -> In br Bsr -> all_true ds (q_where (c_q cr)) (mk1 (bl ++ br)%list) = wr br).
+  { intros bl br Hbl Hbr. unfold wr, all_true. apply forallb_ext_in'. intros p Hp. f_equal. unfold ev, mk1. cbn [fst snd].
+    rewrite (subst_ext_on p dsr ds) by (intros x Hx; apply DefR; apply (a_where_dom cr Ar p Hp x Hx)).
+    apply eval_on_cols. intros k Hk. apply (GetR bl br k Hbl Hbr). apply (cols_subst _ dsr (b_defs cr Br) p k Hk). }
+  (* no WHERE anywhere: every FROM row counts *)
+  set (cj := full_join_compiled cl cr on).
+  assert (WlT : filter wl Bsl = Bsl).
+  { unfold wl. rewrite WL. rewrite (filter_ext _ (fun _ => true)) by reflexivity. apply filter_true. }
+  assert (WrT : filter wr Bsr = Bsr).
+  { unfold wr. rewrite WR. rewrite (filter_ext _ (fun _ => true)) by reflexivity. apply filter_true. }
+  assert (Rl' : Forall2 (fun r b => agrees_on (c_scope cl) dsl (mk1 b) r) (rows sl) Bsl) by (rewrite <- WlT; exact Rl).
+  assert (Rr' : Forall2 (fun r b => agrees_on (c_scope cr) dsr (mk1 b) r) (rows sr) Bsr) by (rewrite <- WrT; exact Rr).
+  clear Rl Rr. rename Rl' into Rl. rename Rr' into Rr.
+  assert (EW : filter (fun b => all_true (c_defs cj) (q_where (c_q cj)) (mk1 b)) (base_rows d cj)
+               = flat_map (fun bl => match filter (fun br => on_holds ds on (bl ++ br)%list) Bsr with
+                                     | [] => [bl]
+                                     | ms => map (fun br => (bl ++ br)%list) ms
+                                     end) Bsl
+                 ++ filter (fun br => negb (existsb (fun bl => on_holds ds on (bl ++ br)%list) Bsl)) Bsr).
+  { unfold base_rows at 1. unfold cj, full_join_compiled. cbn [c_from c_defs c_q q_where]. fold dsl dsr ds Bsl Bsr.
+    rewrite (filter_ext _ (fun _ => true)) by reflexivity. apply filter_true. }
+  (* a joined reference row and the joined FROM row agree *)
+  assert (AgJ : forall lr rr bl br, In lr (rows sl) -> In rr (rows sr) -> In bl Bsl -> In br Bsr ->
+                 agrees_on (c_scope cl) dsl (mk1 bl) lr -> agrees_on (c_scope cr) dsr (mk1 br) rr ->
+                 agrees_on (c_scope cl ++ c_scope cr) ds (mk1 (bl ++ br)%list) (lr ++ rr)%list).
+  { intros lr rr bl br Hlr Hrr Hbl Hbr Al0 Ar0 x Hx. unfold evd, mk1. cbn [fst snd]. apply in_app_or in Hx. destruct Hx as [Hx|Hx].
+    - rewrite get_app_nokey_r by (intros C; apply (DsR x Hx); apply (KR rr x Hrr C)).
+      rewrite (Al0 x Hx). unfold evd, mk1. cbn [fst snd]. symmetry. apply (EvL bl br x Hbl Hbr). apply (a_scope_dom cl Al x Hx).
+    - rewrite get_app_nokey_l by (intros C; apply (DsL x Hx); apply (KL lr x Hlr C)).
+      rewrite (Ar0 x Hx). unfold evd, mk1. cbn [fst snd]. symmetry. apply (EvR bl br x Hbl Hbr). apply (a_scope_dom cr Ar x Hx). }
+  assert (AgU : forall lr bl, In lr (rows sl) -> In bl Bsl -> agrees_on (c_scope cl) dsl (mk1 bl) lr ->
+                 agrees_on (c_scope cl ++ c_scope cr) ds (mk1 bl) lr).
+  { intros lr bl Hlr Hbl Al0 x Hx. unfold evd, mk1. cbn [fst snd]. apply in_app_or in Hx. destruct Hx as [Hx|Hx].
+    - rewrite (Al0 x Hx). unfold evd, mk1. cbn [fst snd]. rewrite (DefL x (a_scope_dom cl Al x Hx)). reflexivity.
+    - rewrite get_nokey by (intros C; apply (DsL x Hx); apply (KL lr x Hlr C)).
+      pose proof (a_scope_dom cr Ar x Hx) as Hd. rewrite (DefR x Hd). destruct (PlainR x Hd) as [k Hk].
+      assert (Hkc : In k (c_cols cr)) by (apply (b_defs cr Br x k); fold dsr; rewrite Hk; left; reflexivity).
+      fold dsr in Hk. rewrite Hk. simpl. symmetry. apply get_nokey. intros C. apply (Dc k (b_keys cl Bl d bl k Hbl C) Hkc). }
+  assert (AgUR : forall rr br, In rr (rows sr) -> In br Bsr -> agrees_on (c_scope cr) dsr (mk1 br) rr ->
+                 agrees_on (c_scope cl ++ c_scope cr) ds (mk1 br) rr).
+  { intros rr br Hrr Hbr Ar0 x Hx. unfold evd, mk1. cbn [fst snd]. apply in_app_or in Hx. destruct Hx as [Hx|Hx].
+    - rewrite get_nokey by (intros C; apply (DsR x Hx); apply (KR rr x Hrr C)).
+      pose proof (a_scope_dom cl Al x Hx) as Hd. rewrite (DefL x Hd). destruct (PlainL x Hd) as [k Hk].
+      assert (Hkc : In k (c_cols cl)) by (apply (b_defs cl Bl x k); fold dsl; rewrite Hk; left; reflexivity).
+      fold dsl in Hk. rewrite Hk. simpl. symmetry. apply get_nokey. intros C. apply (Dc k Hkc). apply (b_keys cr Br d br k Hbr C).
+    - rewrite (Ar0 x Hx). unfold evd, mk1. cbn [fst snd]. rewrite (DefR x (a_scope_dom cr Ar x Hx)). reflexivity. }
+  assert (SuJ : q_summ (c_q cj) = false) by exact SuL.
+  assert (NLJ : no_limit (c_q cj) = true) by exact NLl.
+  assert (NOJ : is_nil (q_order (c_q cj)) = true) by exact NOl.
+  assert (AUX : Aux cj).
+  { destruct Al as [A1 A2 A3 A4 A5 A6 A7 A8 A9 A10]. destruct Ar as [B1 B2 B3 B4 B5 B6 B7 B8 B9 B10].
+    constructor; unfold cj, full_join_compiled; cbn [c_scope c_defs c_q c_labels q_select q_part q_group q_where q_having q_order q_summ q_limit q_offset]; fold dsl dsr.
+    - intros x Hx. rewrite map_app. apply in_or_app. apply in_app_or in Hx. destruct Hx as [Hx|Hx]; [right; apply A1|left; apply B1]; exact Hx.
+    - intros x Hx. apply in_or_app. apply in_app_or in Hx. destruct Hx as [Hx|Hx]; [left; apply A2|right; apply B2]; exact Hx.
+    - intros x Hx. rewrite map_app. apply in_or_app. apply in_app_or in Hx. destruct Hx as [Hx|Hx]; [right; apply A3|left; apply B3]; exact Hx.
+    - intros x Hx. rewrite PL in Hx. destruct Hx.
+    - intros x Hx. rewrite HgL in Hx. destruct Hx.
+    - intros p Hp. destruct Hp.
+    - intros p Hp. rewrite HhL in Hp. destruct Hp.
+    - intros o Ho x Hx. rewrite map_app. apply in_or_app. right. apply (A8 o Ho x Hx).
+    - intros _. split; assumption.
+    - exact A10. }
+  split; [|exact AUX].
+  constructor.
+  - rewrite (final_units_rows d cj AUX SuJ NLJ NOJ). cbv zeta. rewrite EW.
+    apply (units_plain_in (c_scope cj) (c_defs cj) _ _ ElemDs).
+    cbn [rows do_join].
+    assert (HinL : Forall2 (fun lr bl => agrees_on (c_scope cl) dsl (mk1 bl) lr /\ In lr (rows sl) /\ In bl Bsl) (rows sl) Bsl).
+    { pose proof (Forall2_with_In _ _ _ Rl) as H1.
+      pose proof (Forall2_flip' _ _ _ (Forall2_with_In _ _ _ (Forall2_flip' _ _ _ Rl))) as H2.
+      pose proof (Forall2_and _ _ _ _ H1 H2) as H3. eapply Forall2_impl'; [|exact H3]. intros lr bl [[A1 A2] [_ A3]]. auto. }
+    assert (HinR : Forall2 (fun rr br => agrees_on (c_scope cr) dsr (mk1 br) rr /\ In rr (rows sr) /\ In br Bsr) (rows sr) Bsr).
+    { pose proof (Forall2_with_In _ _ _ Rr) as H1.
+      pose proof (Forall2_flip' _ _ _ (Forall2_with_In _ _ _ (Forall2_flip' _ _ _ Rr))) as H2.
+      pose proof (Forall2_and _ _ _ _ H1 H2) as H3. eapply Forall2_impl'; [|exact H3]. intros rr br [[A1 A2] [_ A3]]. auto. }
+    assert (OnEq : forall lr bl rr br, agrees_on (c_scope cl) dsl (mk1 bl) lr -> In lr (rows sl) -> In bl Bsl ->
+                     agrees_on (c_scope cr) dsr (mk1 br) rr -> In rr (rows sr) -> In br Bsr ->
+                     on_true on lr rr = on_holds ds on (bl ++ br)%list).
+    { intros lr bl rr br Agl Hlr Hbl Agr Hrr Hbr. unfold on_true, on_holds. f_equal.
+      apply (subst_elem on Eon ds (mk1 (bl ++ br)%list) [] 0%nat (lr ++ rr)%list).
+      eapply agrees_on_incl; [apply scoped_incl; exact Son|]. apply (AgJ lr rr bl br Hlr Hrr Hbl Hbr Agl Agr). }
+    apply Forall2_app.
+    + apply (Forall2_flat_map (fun lr bl => agrees_on (c_scope cl) dsl (mk1 bl) lr /\ In lr (rows sl) /\ In bl Bsl)); [exact HinL|].
+      intros lr bl [Agl [Hlr Hbl]]. unfold join_branch.
+      assert (Hf : Forall2 (fun rr br => agrees_on (c_scope cr) dsr (mk1 br) rr /\ In rr (rows sr) /\ In br Bsr)
+                           (filter (on_true on lr) (rows sr)) (filter (fun br => on_holds ds on (bl ++ br)%list) Bsr)).
+      { apply Forall2_filter; [exact HinR|]. intros rr br [Agr [Hrr Hbr]]. apply (OnEq lr bl rr br); assumption. }
+      assert (Goal2 : Forall2 (fun r b => agrees_on (c_scope cj) (c_defs cj) (mk1 b) r)
+                              (map (fun rr => (lr ++ rr)%list) (filter (on_true on lr) (rows sr)))
+                              (map (fun br => (bl ++ br)%list) (filter (fun br => on_holds ds on (bl ++ br)%list) Bsr))).
+      { apply Forall2_map_l. apply Forall2_map_r. eapply Forall2_impl'; [|exact Hf]. intros rr br [Agr [Hrr Hbr]].
+        apply (AgJ lr rr bl br Hlr Hrr Hbl Hbr Agl Agr). }
+      destruct (filter (on_true on lr) (rows sr)) as [|rr0 rs0];
+        destruct (filter (fun br => on_holds ds on (bl ++ br)%list) Bsr) as [|br0 bs0];
+        [constructor; [apply (AgU lr bl Hlr Hbl Agl)|constructor] | inversion Hf | inversion Hf | exact Goal2].
+    + assert (Hf : Forall2 (fun rr br => agrees_on (c_scope cr) dsr (mk1 br) rr /\ In rr (rows sr) /\ In br Bsr)
+                           (filter (fun rr => negb (existsb (fun lr => on_true on lr rr) (rows sl))) (rows sr))
+                           (filter (fun br => negb (existsb (fun bl => on_holds ds on (bl ++ br)%list) Bsl)) Bsr)).
+      { apply Forall2_filter; [exact HinR|]. intros rr br [Agr [Hrr Hbr]]. f_equal.
+        clear -HinL OnEq Agr Hrr Hbr. induction HinL as [|lr bl L L' [Agl [Hlr Hbl]] _ IH]; [reflexivity|].
+        simpl. rewrite (OnEq lr bl rr br Agl Hlr Hbl Agr Hrr Hbr), IH. reflexivity. }
+      eapply Forall2_impl'; [|exact Hf]. intros rr br [Agr [Hrr Hbr]]. apply (AgUR rr br Hrr Hbr Agr).
+  - cbn [sel do_join]. unfold cj, full_join_compiled. cbn [c_q c_labels q_select]. rewrite map_app, Sl, Sr. f_equal.
+    + apply map_ext_in. intros u Hu. rewrite label_app_other by (apply Dl; exact Hu). reflexivity.
+    + apply map_ext_in. intros u Hu. f_equal. unfold label.
+      destruct (assoc_u_in_dom _ _ (a_sel_labels cr Ar u Hu)) as [n Hn]. rewrite (assoc_u_app_found _ _ _ _ Hn), Hn. reflexivity.
+  - cbn [group do_join]. symmetry. exact PL.
+Qed.
+
 (* ---------- the theorem ---------- *)
 Theorem compile_invariant d : forall a c, compile a = Some c -> flat_ok a = true -> Inv d (sem_ref d a) c /\ Aux c.
 Proof.
@@ -1553,6 +1752,40 @@ Proof.
         { clear -He. induction (c_defs cr) as [|[k v] L IH]; simpl in He; [discriminate|].
           destruct (N.eqb_spec x k) as [->|N]; [inversion He; subst; left; reflexivity|right; apply IH; exact He]. }
         specialize (Fplain (x, e) Hin). simpl in Fplain. destruct e; try discriminate. eexists. reflexivity.
+    + destruct (compile l) as [cl|] eqn:El; [|discriminate C]. destruct (compile r) as [cr|] eqn:Er; [|discriminate C].
+      destruct (q_where (c_q cl)) eqn:WL; [|discriminate C]. destruct (q_where (c_q cr)) eqn:WR; [|discriminate C].
+      inversion C; subst; clear C.
+      apply andb_prop in F. destruct F as [F F3]. apply andb_prop in F. destruct F as [F Fon]. apply andb_prop in F. destruct F as [Fl Fr].
+      apply andb_prop in F3. destruct F3 as [F3 Dlab]. apply andb_prop in F3. destruct F3 as [F3 Ddef].
+      apply andb_prop in F3. destruct F3 as [F3 Dcol]. apply andb_prop in F3. destruct F3 as [F3 DsL].
+      apply andb_prop in F3. destruct F3 as [F3 DsR]. apply andb_prop in F3. destruct F3 as [F3 Fsc].
+      apply andb_prop in F3. destruct F3 as [F3 FplainR]. apply andb_prop in F3. destruct F3 as [F3 FplainL].
+      apply andb_prop in F3. destruct F3 as [Pl Pr].
+      repeat (apply andb_prop in Pl; let H := fresh "L" in destruct Pl as [Pl H]).
+      repeat (apply andb_prop in Pr; let H := fresh "R" in destruct Pr as [Pr H]).
+      destruct (IHl cl eq_refl Fl) as [Il Al]. destruct (IHr cr eq_refl Fr) as [Ir Ar].
+      pose proof (compile_base l cl El) as Bl. pose proof (compile_base r cr Er) as Br.
+      cbn [sem_ref]. fold (full_join_compiled cl cr on).
+      apply negb_true_iff in Pl. apply negb_true_iff in Pr.
+      assert (PlainOf : forall c0, forallb (fun d0 : uid * expr => match snd d0 with ECol _ => true | _ => false end) (c_defs c0) = true ->
+                         forall x, In x (map fst (c_defs c0)) -> exists k, def_of (c_defs c0) x = ECol k).
+      { intros c0 Fp x Hx. destruct (assoc_u_in_dom _ _ Hx) as [e He]. unfold def_of. rewrite He.
+        rewrite forallb_forall in Fp.
+        assert (Hin : In (x, e) (c_defs c0)).
+        { clear -He. induction (c_defs c0) as [|[k v] L IH]; simpl in He; [discriminate|].
+          destruct (N.eqb_spec x k) as [->|N]; [inversion He; subst; left; reflexivity|right; apply IH; exact He]. }
+        specialize (Fp (x, e) Hin). simpl in Fp. destruct e; try discriminate. eexists. reflexivity. }
+      apply (full_join_case d (sem_ref d l) (sem_ref d r) cl cr on (ast_uids l) (ast_uids r)); try assumption.
+      * apply (rk_rows _ _ (ref_keys d l)).
+      * apply (rk_rows _ _ (ref_keys d r)).
+      * destruct (q_part (c_q cl)); [reflexivity|discriminate].
+      * apply disjointb_spec. assumption.
+      * apply disjointb_spec. assumption.
+      * apply disjointb_spec. assumption.
+      * apply disjointb_spec. assumption.
+      * apply disjointb_spec. assumption.
+      * apply PlainOf. exact FplainR.
+      * apply PlainOf. exact FplainL.
   - cbn [compile] in C. cbn [flat_ok] in F.
     destruct (compile l) as [cl|] eqn:El; [|discriminate C]. destruct (compile r) as [cr|] eqn:Er; [|discriminate C].
     destruct (union_right_select cl cr) as [rsel|] eqn:Es; [|discriminate C]. inversion C; subst; clear C.
